@@ -11,19 +11,19 @@ HERE = os.path.dirname(os.path.abspath(__file__))
 STATUS = {
  "C01": ("desugarS/B/Else_sound, program_desugar_sound, desugarB_core, elif_order, strRel_* order lemmas, compile_preserves_meaning_partial (Safe), grouping_lost_witness, only_not_regroups (Props/C01, Sem/Core, Sem/Regroup)", "compiled program stdout/stop = re-reading model (restructuring + rustc's grouping of the emitted text + interpreter)", "CPython runs the same program; wrong results are attributed to the grouping finding only if the program is not Safe AND the re-reading model reproduces them; 16 feature templates outside the modelled core (classes + inheritance + overriding, traits with defaults, enums + match, Option/Result/?, f-strings, string methods, dicts, comprehensions, slices, tuples, counting-down ranges, recursion) with seeded constants, CPython as the reference (oracle only)"),
  "C02": ("accepted_body_builds_partial via bind_sim / stmt_sim / block_sim / else_sim / tyE_sim; nested_retype_accepted witness (Props/C02, Sem/CoreTyping)", "checker verdict + build outcome of 9 variants of generated bodies = chkB / rustB", "accepted ⇒ builds; 22 per-construct probes; 24 ill-typed programs (one broken static rule each: if the checker lets one through it must still build); every sampled subset of the derives on a model and a class; multi-file projects through the real `incan build`"),
- "C03": ("every_position_checked (mutual), elif_was_skipped witness, reassign_immutable_rejected / reassign_mutable_accepted / fresh_name_accepted, old_checker_missed_nested, omitted_variant_reported, complete_match_accepted, wrong_argument_reported, wrong_named_argument_reported, fitting_arguments_accepted (Props/C03, Sem/Checker)", "single edits at every expression position / statement list of corpus + repository programs; scope depth grid; random matches (variant names related by affix); calls with 1-4 parameters (incl. trait-typed), positional / keyword arguments = validateArgs", "each edit must be rejected with a diagnostic on the edited lines; documented mutability rule; coverage of match arms; every wrong argument reported at that argument and nothing else"),
+ "C03": ("every_position_checked (mutual), elif_was_skipped witness, reassign_immutable_rejected / reassign_mutable_accepted / fresh_name_accepted, old_checker_missed_nested, omitted_variant_reported, complete_match_accepted, wrong_argument_reported, wrong_named_argument_reported, fitting_arguments_accepted, surplus_argument_reported, unknown_keyword_reported, missing_argument_reported, missing_required_method_reported, wrong_signature_reported, missing_required_field_reported, wrong_field_type_reported, conforming_adopter_accepted (Props/C03, Sem/Checker)", "single edits at every expression position / statement list of corpus + repository programs; scope depth grid; random matches (variant names related by affix); calls with 1-4 parameters (incl. trait-typed, defaults), positional / keyword arguments, arity edits = validateArgs / surplusArgs / missingParams; generated trait / adopter pairs = conformance", "each edit must be rejected with a diagnostic on the edited lines; documented mutability rule; coverage of match arms; every wrong / surplus / unknown argument reported at that argument, every missing one on the call, and nothing else; adoption errors name exactly the missing / mistyped members, inside the adopter"),
  "C04": ("floorDiv/mod = Int.fdiv/fmod for all Int64 pairs, core=std, identity, zero divisor, no other failure", "10 streams: both integer kernels, 4 operand-type pairs of py_div/py_mod/py_floor_div, f64 wrappers", "Python `//`, `%`, `/`"),
  "C05": ("slice/index/range = CPython for all i64 (saturating step), str=list copy", "9 streams incl. both copies, range with cap, dict_get", "CPython `s[a:b:c]`, `range`; slice syntax on the real parser"),
  "C06": ("const_value_sound, const_type_sound (binConst_type), index_error_agrees, runtime_index_error_reported, slice_step_zero_agrees, static_fold_sound, ok_implies_no_repeat, cycle_is_rejected, never_out_of_fuel, resolution_terminates (Props/C06, Sem/ConstEval)", "checker on `const K = E` (verdict, type, const_values); same expression in a compiled function body; compiled consts; dependency graphs", "Python evaluates the expression; const type = body type; independent cycle DFS"),
  "C07": ("phases_agree by structural induction; policy table by cases", "policy table (exhaustive), checker/IR/plan types, let/return/argument/compound verdicts", "documented table"),
- "C08": ("roundtrip over the expression ladder (WL derivations), fmt injective", "parse, fmt, round trip (incl. rejections)", "AST equality on corpus + generators"),
+ "C08": ("roundtrip over the expression ladder (WL derivations), fmt injective; literals: string_literal_roundtrip / string_literal_lexes / bytes_literal_roundtrip (formatter escaping read back by the lexer, Syntax/Literals), apostrophe_must_stay_bare witness", "parse, fmt, round trip (incl. rejections); fmtStr / fmtBytes = text written by the real formatter (every byte value); scanStr / scanBytes = real lexer on arbitrary literal texts", "AST equality on corpus + generators"),
  "C09": ("fmt idempotent on the ladder; CLI decision logic; runFiles read-only", "CLI single file + directory", "idempotence, check consistency, hygiene"),
- "C10": ("8 invariance theorems over all states/continuations; reindent under monotone maps", "layout model vs real lexer kinds", "AST equality under 10 edit kinds"),
+ "C10": ("8 invariance theorems over all states/continuations; reindent under monotone maps", "layout model vs real lexer kinds", "AST equality under 10 edit kinds; text cut at the end of seeded logical lines parses the same with and without its final newline"),
  "C11": ("get_line_info slices on boundaries, EOF, C19 ranges (partial scope)", "format_error rendering incl. long lines", "whole pipeline fuzz with watchdog"),
  "C12": ("manifest order independence", "manifest repeated with fresh hash maps", "3 processes × environments, in-process twice"),
  "C13": ("table_complete / table_sound / legal_keywords_rawable over tables REGENERATED from the source on every run, emitted_identifier_valid_partial, emit_injective, rename_preserves_binding, self_type_name_unemittable (Props/C13, Sem/Names, Generated/Keywords)", "is_keyword on every entry + near misses; emitTok = spelling of a local and a struct field in the emitted Rust; one compiled program per (binding position, name); sibling names (k, k_, _k, r_k, K) bound side by side", "renamed program behaves like the plain-named one; sibling bindings keep their own values"),
- "C14": ("resolvers_agree_partial + 3 witnesses, private_rejected, exported_iff, private_decl_rejected, work-list lemmas", "both resolvers on real trees (incl. deep entries, multi-level parents), visibility verdicts, export computation on generated modules", "agreement, visibility, missing/cycle"),
- "C15": ("all_pinned, unknown_refused, deps_exact, names_nodup", "ProjectGenerator + `incan build` (stub cargo) + trigger positions", "exactness, pinning, refs ⊆ declared"),
+ "C14": ("resolvers_agree_partial + 3 witnesses, private_rejected, exported_iff, private_decl_rejected, work-list lemmas", "both resolvers on real trees (incl. deep entries, multi-level parents), visibility verdicts, export computation on generated modules imported from the entry directory and from nested packages (pkg.inner, pkg.sub.deep)", "agreement, visibility, missing/cycle"),
+ "C15": ("all_pinned, unknown_refused, deps_exact, names_nodup", "ProjectGenerator + `incan build` (stub cargo) + trigger positions (json_stringify in 18 statement / expression positions; serde derives in every decorator / list / declaration position)", "exactness, pinning, refs ⊆ declared"),
  "C16": ("verdict_truthful, skip_not_run, xfail_inverts, filter_exact, all_selected_reported, exit_iff_failure, counts_match (Props/C16, Tool/TestRunner)", "real `incan test` on generated files (every executed test through cargo test)", "ground truth of the test bodies, -k / --slow / -x, four @skip spellings"),
  "C17": ("construction_validated_partial, rejected_argument_stops, own_methods_exempt, other_methods_checked, select_sound / select_from_underlying / select_single, nominal, alias_bypasses witness (Props/C17, Sem/Newtype)", "compiled programs: 11 fixed declaration shapes + generated ones (1-3 methods, hook-shaped or near misses, hook-like and other names) × 19 sites × values; 6 underlying types", "hook enforced outside own methods; mixing newtypes rejected"),
  "C18": ("converges for all interleavings (ticket protocol); 3 counter-examples for the old protocol", "event-log replay", "hover = latest after quiescence"),
@@ -105,9 +105,10 @@ Deviations from the round-0 plan (errata):
         if f.get("status") == "open":
             out.append(f"* **{f['id']}** ({f['property']}): {f['what_fails']} — witness `{f['witness']}`")
     out.append("""
-Why these are recorded rather than repaired: C04 float `%` — CPython behaves identically; C19 column — touches the
-caret layout of every terminal diagnostic; C14 — unifying three resolvers and diagnosing missing modules / cycles are
-design changes; C17 alias — needs the checker to distinguish a type name used as a value; C13 `Self`, generated
+Why these are recorded rather than repaired: C04 float `%` — CPython behaves identically; C14 — unifying three resolvers and diagnosing missing modules / cycles
+are design changes (the repository's own examples import modules that resolve to no file: `polars::prelude`,
+`dataclasses`, `serde`, `incan::http`); C17 alias — a repair by lowering the bare type name to a closure over the hook
+was tried and reverted (the closure emitter drops parameter types, rustc cannot infer them); C13 `Self`, generated
 temporaries and relied-on type names — need hygiene in the emitter (snapshots pin the emitted text); C13/C02 `pop` and
 C01 grouping — pinned by snapshots; C03 f-string locations — need the lexer's f-string token to carry offsets, which
 its own unit tests pin; C02 — each entry is a backend feature gap (strings held in variables, tuple unpacking, const
